@@ -955,6 +955,9 @@ Definition line_eqb (a b : line) : bool :=
 (* case: (url, encoding warning, command line, server script, what the implementation
    printed, its exit status, the calls it made) *)
 Definition ctl_case := (string * option string * string * list resp * list line * Z * list call)%type.
+Definition mkcase (u : string) (e : option string) (l : string) (o : list resp) (ls : list line)
+           (z : Z) (c : list call) : ctl_case := (u, e, l, o, ls, z, c).
+Definition mkcall (m : string) (a : list arg) : call := (m, a).
 Definition check_case (c : ctl_case) : bool :=
   let '(url, enc, l, o, lines, status, cs) := c in
   let '(ml, ms, mc) := run_line {| e_url := url; e_enc := enc |} l o in
